@@ -239,3 +239,9 @@ def run(chk):
     mssm_check_problems(chk, mod, dem)
     from . import C16b
     C16b.run(chk)
+    # tachyonic spectra are flagged: the tachyon-iff obligations of the spectrum steps (shared with C04)
+    from . import C04, C04b
+    c4 = C04.setup(chk)
+    C04.matrices(chk, c4)
+    C04b.run(chk, c4)
+    chk.absorb_executor(c4.ex)
